@@ -229,6 +229,8 @@ func init() {
 			if s != nil {
 				members = append(members, s.GetAll()...)
 			}
+			// Sorted, so that the same set always has the same encoding.
+			slices.Sort(members)
 			b, err := json.Marshal(members)
 			return b, true, err
 		},
